@@ -25,9 +25,10 @@ import time
 
 ROOT = os.path.dirname(os.path.dirname(os.path.abspath(__file__)))
 REPO = os.environ.get('VERIF_REPO', '/repo')
-LEAN_DIR = os.path.join(ROOT, 'lean')
+LEAN_DIR = os.environ.get('VERIF_LEAN_DIR') or os.path.join(ROOT, 'lean')   # a private copy when several trees are checked at once
 DRIVER = os.path.join(LEAN_DIR, '.lake', 'build', 'bin', 'driver')
-WORK = os.path.join(ROOT, '.work')
+WORK = os.environ.get('VERIF_WORK_DIR') or os.path.join(ROOT, '.work')
+OUT = os.environ.get('VERIF_OUT_DIR') or ROOT     # evidence/ and replays/ live here (a side directory when a changed copy of /repo is checked)
 
 Fraction = fractions.Fraction
 
@@ -288,7 +289,7 @@ def load_known():
 
 
 def write_replay(prop, obj):
-    d = os.path.join(ROOT, 'replays')
+    d = os.path.join(OUT, 'replays')
     os.makedirs(d, exist_ok=True)
     s = json.dumps(obj, sort_keys=True, indent=1, default=str)
     h = hashlib.sha1(s.encode()).hexdigest()[:12]
@@ -299,7 +300,7 @@ def write_replay(prop, obj):
 
 
 def write_evidence(prop, ev):
-    d = os.path.join(ROOT, 'evidence')
+    d = os.path.join(OUT, 'evidence')
     os.makedirs(d, exist_ok=True)
     p = os.path.join(d, prop + '.json')
     tmp = p + '.tmp'
